@@ -55,8 +55,15 @@ def _case(draw):
     if handler == "umn" and cand:
         for n in draw(st.lists(st.sampled_from(cand), max_size=2, unique=True)):
             hows = ["namesX", "capX", "cap-", "names~"] + (["namesX/", "namesX/", "names~/"] if n.endswith("/") else [])
-            hide.append([n.rstrip("/"), draw(st.sampled_from(hows))])
-    k = len(names) + 3
+            h = [n.rstrip("/"), draw(st.sampled_from(hows))]
+            import re as _re
+            if h[1].startswith("names") and not _re.search(gen.SHIPPED_IGNORE, "/" + h[0]):
+                # (only for entries that would be listed: a './' block for a name the ignore pattern keeps out ADDS an entry)
+                # optionally a second, non-hiding block for the same entry (a title), before or after the hiding one, in the
+                # same link file or in '.Links' (which sorts before '.names'): hidden stays hidden
+                h.append(draw(st.sampled_from([None, None, "before", "after", "other-file"])))
+            hide.append(h)
+    k = len(names) + 5
     return {"names": names, "parent": draw(st.sampled_from(PARENTS)), "handler": handler, "hide": hide,
             "perm1": draw(st.permutations(list(range(k)))), "perm2": draw(st.permutations(list(range(k)))),
             "form2": draw(st.sampled_from(["http", "gemini", "gdollar", "wap", "spartan"]))}
@@ -90,7 +97,8 @@ class _Perm:
             if pb.startswith(rootb) and perm is not None:
                 srt = sorted(res)
                 idx = [i for i in perm if i < len(srt)]
-                return [srt[i] for i in idx]
+                # (more entries than the permutation covers: the rest follows in reverse order - nothing is ever dropped)
+                return [srt[i] for i in idx] + [srt[i] for i in range(len(srt) - 1, -1, -1) if i not in idx]
             return res
         os.listdir = listdir
         return self
@@ -116,10 +124,21 @@ def _spec(case):
             spec.append([pre + n, "f", "content of %s\n" % n])
             content[n] = "content of %s\n" % n
     names_blocks = []
-    for n, how in case["hide"]:
+    links_blocks = []
+    for h in case["hide"]:
+        n, how = h[0], h[1]
+        extra = h[2] if len(h) > 2 else None
         if how.startswith("names"):
             # the manual's spellings of a path in the same directory: './name', '~/name', either with a trailing '/'
-            names_blocks.append("Type=X\nPath=%s/%s%s\n" % ("~" if "~" in how else ".", n, "/" if how.endswith("/") else ""))
+            blk = "Type=X\nPath=%s/%s%s\n" % ("~" if "~" in how else ".", n, "/" if how.endswith("/") else "")
+            title = "Name=Titled %s\nPath=./%s\n" % (len(names_blocks), n)
+            if extra == "before":
+                names_blocks.append(title)
+            names_blocks.append(blk)
+            if extra == "after":
+                names_blocks.append(title)
+            if extra == "other-file":
+                links_blocks.append(title)
         elif how == "capX":
             spec.append([pre + ".cap/" + n, "f", "Type=X\n"])
         else:
@@ -127,6 +146,9 @@ def _spec(case):
     if names_blocks:
         spec.append([pre + ".names", "f", "\n".join(names_blocks)])
         content[".names"] = "\n".join(names_blocks)
+    if links_blocks:
+        spec.append([pre + ".Links", "f", "\n".join(links_blocks)])
+        content[".Links"] = "\n".join(links_blocks)
     return spec, ("/" + case["parent"] if case["parent"] else "/"), content
 
 
@@ -150,7 +172,7 @@ def check_case(case, ctx):
         on_disk = sorted(os.fsdecode(n) for n in os.listdir(os.path.join(os.fsencode(root), world.b(case["parent"]))))
         kinds = [(n, os.path.isdir(os.path.join(os.fsencode(root), world.b(case["parent"]), os.fsencode(n)))) for n in on_disk]
         vis = L.visible(kinds, world.sel(dsel), ignorepatt, umn=umn)
-        hidden_meta = {world.sel(n) for n, _ in case["hide"]} if umn else set()
+        hidden_meta = {world.sel(h[0]) for h in case["hide"]} if umn else set()
         want = [n for n in vis if n not in hidden_meta]
         kept_out = [n for n, _ in kinds if n not in want]
 
